@@ -282,6 +282,8 @@ def corpus():
 
 
 def run(ctx):
+    from checks import isolate
+    isolate.enter(ctx)
     exes = {f: mc.build_variant(ctx, [f]) for f in ("json", "yaml", "json5")}
     ok, problems = core.coq_audit(ctx, PROPS, THEOREMS)
     rng = ctx.rng
@@ -401,6 +403,8 @@ def is_subtable(m):
 
 
 def replay(ctx, path):
+    from checks import isolate
+    isolate.enter(ctx)
     obj = json.load(open(path))
     fi = obj.get("failing_input") or {}
     cfg = fi.get("cfg")
